@@ -121,6 +121,9 @@ func (e *Exec) execDeferred(st *State, fr *Frame, d Deferred) ([]*State, bool) {
 		if fr.panicking {
 			return e.unwind(st, d.Pos)
 		}
+		if fr.recovered {
+			return e.resumeRecovered(st, fr, d.Pos)
+		}
 		return nil, true
 	}
 	ci := e.resolve(st, fr, c, d.Fn, d.Args)
@@ -142,6 +145,9 @@ func (e *Exec) afterCall(st *State, fr *Frame, retTo ssa.Value, res Value, mode 
 	case 1:
 		if fr.panicking {
 			return e.unwind(st, token.NoPos)
+		}
+		if fr.recovered {
+			return e.resumeRecovered(st, fr, token.NoPos)
 		}
 		return nil, true // re-run RunDefers
 	}
@@ -437,6 +443,21 @@ func (e *Exec) builtin(st *State, fr *Frame, b *ssa.Builtin, args []Value, c *ss
 		return Value{}, true
 	case "print", "println":
 		return Value{}, false
+	case "recover":
+		// recover() stops a panic only when called directly by a deferred
+		// function while its caller is panicking; otherwise it returns nil.
+		t := b.Type().(*types.Signature).Results().At(0).Type()
+		if n := len(st.frames); n >= 2 && fr.retMode == 1 && st.frames[n-2].panicking {
+			caller := st.frames[n-2]
+			caller.panicking = false
+			caller.recovered = true
+			e.emit(st, Event{Name: "Recovered", Pos: c.Pos()})
+			ty := e.freshConst("recover.ityp", SInt)
+			iv := e.freshConst("recover.ival", SInt)
+			st.assert(Neq(ty, Zero))
+			return Value{T: t, L: []Term{ty, iv}}, false
+		}
+		return zeroValue(t), false
 	case "min", "max":
 		a, bb := args[0].L[0], args[1].L[0]
 		if b.Name() == "min" {
@@ -732,6 +753,7 @@ func (e *Exec) applyContract(st *State, fr *Frame, ci *callInfo, c *FuncContract
 		ps := st.clone()
 		ps.pcs = append(ps.pcs, fmt.Sprintf("%s: %s panics", e.eng.posString(ci.pos), c.Key))
 		ps.pathID = e.newPathID()
+		e.emit(ps, Event{Name: "CalleePanic", Pos: ci.pos})
 		if s2, _ := e.doPanic(ps, ci.pos); s2 != nil {
 			succ = append(succ, s2...)
 		}
